@@ -17,7 +17,7 @@ pub mod c17 {
     fn read_is_ok<const H: usize>(path: u8, fl: &FlushedOffset, off: u64) -> bool {
         match path {
             0 | 1 => {
-                let mut r = Reader::<H>::verif_new(fmodel::fake_file(), fl.clone());
+                let mut r = Reader::<H>::open("seg", Some(fl.clone())).unwrap();
                 let got = r.read_record(off, if path == 1 { ReadHint::Sequential } else { ReadHint::Random });
                 let ok = got.is_ok();
                 std::mem::forget(got);
@@ -25,7 +25,7 @@ pub mod c17 {
                 ok
             }
             2 => {
-                let mut r = Reader::<H>::verif_new(fmodel::fake_file(), fl.clone());
+                let mut r = Reader::<H>::open("seg", Some(fl.clone())).unwrap();
                 let mut it = r.iter(off);
                 let got = it.next_record();
                 let ok = matches!(&got, Ok(Some(_)));
@@ -59,14 +59,14 @@ pub mod c17 {
 
     /// every record appended comes back byte-identical through the given read path
     pub fn roundtrip<const H: usize>(n: usize, start: u64, path: u8) {
-        let mut w = Writer::<H>::verif_new(fmodel::fake_file(), SEG, start);
+        let mut w = Writer::<H>::create("seg", SEG, start).unwrap();
         let fl = w.flushed_offset();
         let d = any_bytes();
         let h: [u8; H] = kani::any();
         let (o, l) = w.append(&h, &d[..n]).unwrap();
         assert!(l == RECORD_HEAD_SIZE + H + n);
         w.sync().unwrap();
-        let mut r = Reader::<H>::verif_new(fmodel::fake_file(), fl.clone());
+        let mut r = Reader::<H>::open("seg", Some(fl.clone())).unwrap();
         if path < 2 {
             let got = r.read_record(o, if path == 1 { ReadHint::Sequential } else { ReadHint::Random });
             match &got {
@@ -120,7 +120,7 @@ pub mod c17 {
 
     /// a single flipped bit anywhere in crc | header | data is detected by every read path
     pub fn bitflip_body<const H: usize>(n: usize, start: u64, path: u8) {
-        let mut w = Writer::<H>::verif_new(fmodel::fake_file(), SEG, start);
+        let mut w = Writer::<H>::create("seg", SEG, start).unwrap();
         let fl = w.flushed_offset();
         let d = any_bytes();
         let h: [u8; H] = kani::any();
@@ -136,7 +136,7 @@ pub mod c17 {
 
     /// a single flipped bit in the 4-byte length field: never valid data, never a panic
     pub fn bitflip_len<const H: usize>(n: usize, start: u64, path: u8, lo: usize, hi: usize) {
-        let mut w = Writer::<H>::verif_new(fmodel::fake_file(), SEG, start);
+        let mut w = Writer::<H>::create("seg", SEG, start).unwrap();
         let fl = w.flushed_offset();
         let d = any_bytes();
         let h: [u8; H] = kani::any();
@@ -155,7 +155,7 @@ pub mod c17 {
 
     /// a burst error of up to 32 bits inside crc | header | data is detected
     pub fn burst_body<const H: usize>(n: usize, start: u64, path: u8, straddle: bool) {
-        let mut w = Writer::<H>::verif_new(fmodel::fake_file(), SEG, start);
+        let mut w = Writer::<H>::create("seg", SEG, start).unwrap();
         let fl = w.flushed_offset();
         let d = any_bytes();
         let h: [u8; H] = kani::any();
@@ -178,7 +178,7 @@ pub mod c17 {
 
     /// a record of which only a strict prefix is visible is never returned
     pub fn truncated<const H: usize>(n: usize, start: u64, path: u8, cut: i64) {
-        let mut w = Writer::<H>::verif_new(fmodel::fake_file(), SEG, start);
+        let mut w = Writer::<H>::create("seg", SEG, start).unwrap();
         let fl = w.flushed_offset();
         let d = any_bytes();
         let h: [u8; H] = kani::any();
@@ -187,7 +187,7 @@ pub mod c17 {
         // cut >= 0: the visible length is a shape parameter (o + cut); cut < 0: symbolic
         let vis: u64 = if cut >= 0 { o + cut as u64 } else { kani::any() };
         kani::assume(vis >= o && vis < o + l as u64);
-        fl.verif_set(vis);
+        fl.set(vis);
         assert!(!read_is_ok::<H>(path, &fl, o), "truncated record returned as valid");
         // and cutting the file itself (zeros after the cut, as after a crash into preallocated space)
         let mut changed = false;
@@ -201,12 +201,12 @@ pub mod c17 {
                 i += 1;
             }
         }
-        fl.verif_set(o + l as u64);
+        fl.set(o + l as u64);
         // (if every lost byte was already zero the record is intact and may of course be returned)
         if changed {
             assert!(!read_is_ok::<H>(path, &fl, o), "record whose tail was lost (zeros) returned as valid");
         }
-        kani::cover!(vis > o + RECORD_HEAD_SIZE as u64);
+        if cut < 0 { kani::cover!(vis > o + RECORD_HEAD_SIZE as u64); }
         std::mem::forget(w);
     }
 
